@@ -320,7 +320,7 @@ func randomReq(r *rand.Rand, protocol, codec string, kind svc.Kind) *hostileReq 
 }
 
 func c07(run *ev.Run) int {
-	run.SetRule("cases = crafted (method, HTTP version, headers, body) from three generators - grammar-based hostile requests (unknown/odd encodings, malformed timeouts, flags, lying lengths, truncated/undecodable/oversize/bomb payloads), mutations of recorded valid requests (bit flips, truncation, dropped headers, method/version/content-type changes), random bytes, valid requests under a Content-Length unrelated to the body, and requests that must be refused (bad timeout, unknown compression) arriving on a request body that stays open until the handler answers - x 3 protocols x 2 codecs x 4 kinds x 2 handler configurations; oracle: no panic, returns, response well-formed per reference decoder (or bare 405/415/505), user code <= 1x, received messages a prefix of the reference-decoded valid prefix, documented error classes never answered with success; distinct by (generator class, config, kind, outcome class)")
+	run.SetRule("cases = crafted (method, HTTP version, headers, body) from three generators - grammar-based hostile requests (unknown/odd encodings, malformed timeouts, flags, lying lengths, truncated/undecodable/oversize/bomb payloads), mutations of recorded valid requests (bit flips, truncation, dropped headers, method/version/content-type changes), random bytes, undecodable JSON whose offending token is several KiB of multi-byte characters, valid requests under a Content-Length unrelated to the body, and requests that must be refused (bad timeout, unknown compression) arriving on a request body that stays open until the handler answers - x 3 protocols x 2 codecs x 4 kinds x 2 handler configurations; oracle: no panic, returns, response well-formed per reference decoder (or bare 405/415/505), user code <= 1x, received messages a prefix of the reference-decoded valid prefix, documented error classes never answered with success; distinct by (generator class, config, kind, outcome class)")
 	run.Assume("handlers use WithReadMaxBytes(1 MiB)")
 	n := run.Pick(1500, 60000)
 	corp := buildCorpus(corpusSpec{protos: svc.Protocols, codecs: svc.Codecs, kinds: svc.Kinds, gzips: []bool{false, true}, counts: []int{1, 2}, scenarios: []string{"ok"}})
@@ -373,6 +373,7 @@ func c07(run *ev.Run) int {
 			c07Case(run, reg, hs[c.kind], c.codec, c.kind, cfg, key, h)
 		}
 	})
+	c07LongTokens(run)
 	c07OpenBody(run, corp)
 	// declared-length lies (Content-Length unrelated to the body)
 	declaredLengthHandler(run, "c07", 1<<20, func(key string, hl *svc.HLog, res *wire.Result, panicked any, hung bool, _ uint64, detail map[string]any) {
@@ -674,6 +675,70 @@ func c07OpenBody(run *ev.Run, corp []*recorded) {
 			if d.Err == nil || d.Err.Code != rf.code || call.Log.Invocations != 0 {
 				detail["status"], detail["decoded_error"] = res.Status, fmt.Sprint(d.Err)
 				run.Violation(key+"/not-refused", "request was not refused with the documented code without running user code", detail)
+			}
+		}
+	}
+}
+
+// c07LongTokens: undecodable JSON whose offending token is long and full of
+// multi-byte characters. Codecs quote such tokens in their error texts, and an
+// error text is data the handler has to put on the wire like any other: the
+// response must stay well-formed (a proper error, not an empty body or a
+// missing end-of-stream) wherever a byte limit or a cut might fall inside it.
+func c07LongTokens(run *ev.Run) {
+	reg := svc.NewRegistry()
+	reg.Default = drainProgram()
+	hs := svc.Handlers(reg, connect.WithReadMaxBytes(c07ReadMax))
+	wide := strings.Repeat("\u00e9\u20ac\U0001d11e", 700) // 2-, 3- and 4-byte runes, about 6 KiB
+	for shift := 0; shift < 9; shift++ {
+		token := strings.Repeat("a", 2000+shift) + wide
+		bodies := map[string][]byte{
+			"unknown-field": []byte(`{"` + token + `":1}`),
+			"bad-literal":   []byte(`{"id":` + token + `}`),
+			"bad-string":    []byte(`{"note":"` + token + "\xff" + `"}`),
+		}
+		for bn, jb := range bodies {
+			for _, protocol := range svc.Protocols {
+				for _, kind := range []svc.Kind{svc.Unary, svc.ClientStream} {
+					key := fmt.Sprintf("c07/long-token/%s/%s/%s/shift=%d", protocol, kind, bn, shift)
+					if !run.Want(key) {
+						continue
+					}
+					stream := !(protocol == "connect" && kind == svc.Unary)
+					body := jb
+					if stream {
+						body = refcodec.AppendFrame(nil, 0, jb)
+					}
+					hdr := http.Header{"Content-Type": {contentType(protocol, "json", kind)}}
+					rw := wire.NewRecorder()
+					var panicked any
+					ok, _ := watchdog(20*time.Second, func() {
+						defer func() { panicked = recover() }()
+						hs[kind].ServeHTTP(rw, wire.ServerRequest(context.Background(), "POST", kind.Path(), hdr, &wire.ScriptedBody{Data: body}, 2))
+					})
+					run.Count("requests", 1)
+					run.Count("long_token.requests", 1)
+					run.Eval(fmt.Sprintf("long-token|%s|%s|%s", protocol, kind, bn))
+					detail := map[string]any{"protocol": protocol, "kind": kind.String(), "body": bn, "token_bytes": len(token)}
+					if !ok {
+						run.Violation(key+"/hang", "ServeHTTP did not return", detail)
+						continue
+					}
+					if panicked != nil {
+						run.Violation(key+"/panic", fmt.Sprintf("ServeHTTP panicked: %v", panicked), detail)
+						continue
+					}
+					res := rw.Finish()
+					d := refcodec.DecodeResponse(protocol, stream, res.Status, res.Header, res.Body, res.Trailer, svc.RefAlgos())
+					detail["status"], detail["response_bytes"], detail["problems"] = res.Status, len(res.Body), d.Problems
+					if len(d.Problems) > 0 || !d.Complete {
+						run.Violation(key+"/malformed", "response to an undecodable request with a long multi-byte token is not well-formed for the selected protocol: "+strings.Join(d.Problems, "; "), detail)
+						continue
+					}
+					if d.Err == nil {
+						run.Violation(key+"/accepted", "an undecodable request was answered with success", detail)
+					}
+				}
 			}
 		}
 	}
